@@ -196,6 +196,10 @@ def run(model: Model, rep: Report) -> None:
     b = gk.params[0]
     r3.check(rets == [f"(0,-{b}.x1,-{b}.y0)", f"(1,-{b}.y0,{b}.x0)"], site(gk), gk.qualname, "flat order: vertical boxes first (right to left, top down), then horizontal boxes top down, left to right", why=f"{rets}")
 
+    # ---------------------------------------------------------------- R4 spatial queries used by the neighbour relation
+    from .c20 import drange_rule
+
+    drange_rule(model, rep, "C09-R4")
     # ---------------------------------------------------------------- R2 homogeneity
     r2 = rep.rule("C09-R2", "HOMOG", "every comparison, sum, min/max and sort key of the layout code is homogeneous in length; parameters are dimensionless", 40)
     targets: List[Tuple[FuncInfo, Dict[str, object]]] = []
